@@ -142,11 +142,12 @@ Definition body_of (text : str) : option str :=
 
 (** the date of the message's first Date: field, as written (RFC 3501:
     "disregarding time and timezone"), when its value is an RFC 5322 date-time *)
-(** RFC 5322 date-time: the parts are separated by folding white space (SP / HTAB) *)
-Definition rfc5322_date (v : str) : option date := mail_date_by (fun c => Ascii.eqb c sp || Ascii.eqb c tab) v.
+(** RFC 5322 date-time: the parts are separated by folding white space, SP or
+    HTAB alike ([wsp_to_sp]) *)
+Definition rfc5322_date (v : str) : option date := mail_date (trim_space (wsp_to_sp v)).
 Definition sent_date (text : str) : option date :=
   match field_values text (S_ "Date") with
-  | v :: _ => rfc5322_date (trim_space v)
+  | v :: _ => rfc5322_date v
   | [] => None
   end.
 
